@@ -357,6 +357,38 @@ def unit_initial(kind):
     return unit
 
 
+def native_phase_replay(kind):
+    """R1: one real (jitted) control step of the real environment from a reset state whose command / gait frequency are set to the counter-model's values (then to a zero command
+    and to a generic command): the new gait phase must be wrap(phase + 2*pi*frequency*dt) and frequency / command must be carried."""
+    def replay(model):
+        env = env_of(kind)
+        st0 = jax.jit(lambda k: env.initial(key=k))(jax.random.key(0))
+        step = jax.jit(lambda s, a, k: env.transition(s, a, key=k))
+        cands = []
+        try:
+            cm = [kit.model_float(model, f"command[{i}]", None) for i in range(3)]
+            gf = kit.model_float(model, "gait_frequency", None)
+            if model is not None and gf is not None:
+                cands.append(([0.0 if v is None else v for v in cm], gf))
+        except Exception:
+            pass
+        cands += [([0.0, 0.0, 0.0], 1.5), ([0.4, -0.2, 0.1], 1.25), ([0.005, 0.0, 0.0], 2.0)]
+        dt = float(env.dt)
+        for cmd, gf in cands:
+            s = eqx.tree_at(lambda s_: (s_.command, s_.gait_frequency), st0, (jnp.asarray(cmd, f32), jnp.asarray(gf, f32)))
+            ns = step(s, jnp.zeros((29,), f32), jax.random.key(1))
+            ph0 = np.asarray(s.gait_phase, np.float64)
+            exp = (ph0 + 2 * np.pi * gf * dt + np.pi) % (2 * np.pi) - np.pi
+            got = np.asarray(ns.gait_phase, np.float64)
+            d = np.abs(((got - exp) + np.pi) % (2 * np.pi) - np.pi)
+            if np.max(d) > 1e-4 or abs(float(ns.gait_frequency) - gf) > 1e-6 or not np.allclose(np.asarray(ns.command), np.asarray(cmd, np.float32)):
+                return dict(reproduced=True, route=f"R1 (real jitted {type(env).__name__}.transition, real mjx physics, one control step from a reset state)",
+                            inputs=dict(command=cmd, gait_frequency=gf, dt=dt, gait_phase=ph0.tolist()), observed=dict(new_gait_phase=got.tolist(), expected=exp.tolist(),
+                                                                                                                      new_frequency=float(ns.gait_frequency), new_command=np.asarray(ns.command).tolist()))
+        return dict(reproduced=False, note=f"{len(cands)} (command, frequency) cases: phase advances by 2*pi*frequency*dt, frequency and command carried")
+    return replay
+
+
 def unit_transition_kind(kind):
     def unit(S):
         _transition(S, (kind,), lemma=(kind == "locomotion"))
@@ -394,6 +426,7 @@ def _transition(S, kinds, lemma=True):
             return env.transition(s, a, key=kk)
         with extract.patched((GT, "advance_gait_phase", agp_stub), (BG.mjx, "step", step_stub), (jr, "uniform", uniform_stub)):
             ns = run(ctx, build, gp, gf, cmd, bm, act, k)
+        rp = native_phase_replay(kind)
         agp = [c for c in ctx.calls if c.name == "AGP#"]
         S.fact(f"{kind}.transition/phase-advanced-once-per-control-step", len(agp) == 1 and calls["n"] == 1, function=fn, what="advance_gait_phase is applied exactly once per control step (not per physics sub-step)",
                detail=dict(calls=calls["n"]))
@@ -401,9 +434,9 @@ def _transition(S, kinds, lemma=True):
             c = agp[0]
             dtv = ir.const_float(np.float32(env.dt))
             S.prove(f"{kind}.transition/phase-update-arguments", ctx, sand(kit.arr_eq_at(c.operands[0], gp, ()), ir.seq(c.operands[1].scalar(), gfc), ir.seq(c.operands[2].scalar(), dtv),
-                                                                           kit.arr_eq_at(ns.gait_phase, c.outputs[0], ())), function=fn,
+                                                                           kit.arr_eq_at(ns.gait_phase, c.outputs[0], ())), function=fn, replay=rp,
                     what="gait_phase' = advance_gait_phase(gait_phase, gait_frequency, dt) with the state's frequency and the control time step")
-        S.prove(f"{kind}.transition/frequency-command-carried", ctx, sand(ir.seq(ns.gait_frequency.scalar(), gfc), kit.arr_eq_at(ns.command, cmd, ())), function=fn,
+        S.prove(f"{kind}.transition/frequency-command-carried", ctx, sand(ir.seq(ns.gait_frequency.scalar(), gfc), kit.arr_eq_at(ns.command, cmd, ())), function=fn, replay=rp,
                 what="gait frequency and velocity command are carried unchanged through the episode")
         S.prove(f"{kind}.transition/model-carried", ctx, sand(*[ir.seq(ns.model.body_mass.at((b,)), bm.at((b,))) for b in range(0, bm.shape[0], 5)]), function=fn,
                 what="the per-episode randomised model is carried unchanged")
